@@ -253,8 +253,10 @@ class Gen:
                     self.form_children(xf)
                     forms.append(xf)
             if self.chance(0.5):
+                # (a new form without tags / pronunciations: children of a new form on an
+                # external entry are not among the documented extension patterns, and the
+                # pinned code attaches them to the base form of equal rank - see DESIGN.md)
                 nf = {'writtenForm': f'{be["id"]}-newform', 'id': f'{L["id"]}-{be["id"]}-nf'}
-                self.form_children(nf)
                 forms.append(nf)
             if forms:
                 ee['forms'] = forms
